@@ -71,6 +71,11 @@ class LoopMonitor:
         sig = []
 
         def is_dummy(et):
+            # anything that is not an event name of the definition is an
+            # internal node (dummy start/end/break, loop node): independent
+            # of how the code under test names its placeholders
+            if self.src_mult:
+                return et not in self.src_mult
             return et.startswith("|||") or et == "DUMMY_BREAK"
 
         def check_graph(g, path, depth):
